@@ -75,6 +75,12 @@ def to_script(hist, initseg, maxchunks):
             lines.append("G 1")
         elif k == "ObserveFin":
             pass
+        elif k == "Fill":       # fill the rest of the first segment with rooted ballast, so that later objects go to a grown segment
+            rest = a[1]
+            if rest > 3:
+                lines.append("A 15 data 3 0 reg 6")
+                rest -= 3
+            lines.append("A 16 data %d 0 reg 7" % rest)
         else:
             raise Broken("unknown action label %r" % (a,))
     return lines
@@ -143,10 +149,12 @@ def classify_micro_rejection(events, idx):
 
 
 def micro_campaign(chk, sc, build, hists, initseg, maxchunks, label, batch=150):
-    """Replay behaviours on the real allocator, validate each batch with TLC; on rejection isolate the run."""
+    """Replay behaviours on the real allocator, validate each batch with TLC (batches in parallel); on rejection isolate the run."""
     exe = build_micro(build, sc)
-    accepted = 0
-    for bi, group in enumerate(vlib.chunks(hists, batch)):
+    groups = list(enumerate(vlib.chunks(hists, batch)))
+
+    def do_batch(item):
+        bi, group = item
         lines = []
         for h in group:
             lines += to_script(h, initseg, maxchunks)
@@ -154,8 +162,11 @@ def micro_campaign(chk, sc, build, hists, initseg, maxchunks, label, batch=150):
         rc, spath = run_micro(build, exe, lines, tpath)
         events = vlib.read_ndjson(tpath)
         r = validate_micro(sc, tpath)
+        return bi, group, rc, events, r
+    accepted = 0
+    for bi, group, rc, events, r in vlib.parallel(do_batch, groups, jobs=6):
         if r.error and "Postcondition" not in (r.error or ""):
-            raise Broken("HeapTrace failed on %s: %s" % (tpath, r.error[:2000]))
+            raise Broken("HeapTrace failed on batch %s_%d: %s" % (label, bi, r.error[:2000]))
         if r.ok and rc == 0:
             accepted += len(group)
             chk.cov["transitions_replayed"] = chk.cov.get("transitions_replayed", 0) + len(events)
@@ -174,8 +185,7 @@ def micro_campaign(chk, sc, build, hists, initseg, maxchunks, label, batch=150):
                 continue
             if r1.error and "Postcondition" not in r1.error:
                 raise Broken("HeapTrace failed on isolated run: %s" % r1.error[:2000])
-            # confirm (tool flakiness guard)
-            r2 = validate_micro(sc, one)
+            r2 = validate_micro(sc, one)       # confirm (tool flakiness guard)
             if r2.ok and not crashed:
                 accepted += 1
                 continue
@@ -197,3 +207,35 @@ def micro_campaign(chk, sc, build, hists, initseg, maxchunks, label, batch=150):
                         "replay": "./check %s --replay <this file>" % chk.prop})
     chk.cov["traces_validated_against_impl"] += accepted
     return accepted
+
+
+def chain_scripts():
+    """Deterministic family (C16/C02/C10): ephemeron chains k1 -> (value k2) -> (value v) in every allocation order of
+    the five objects (allocation order = address order = the order in which the collector scans them), with and
+    without a second heap segment in between; roots: k1 (reg 1), e1 (reg 2), e2 (reg 3); k2 and v are reachable only
+    through ephemeron values.  v is a node, a finalizable object, or an ephemeron whose own key is k1.  After a
+    collection everything must still be there, nothing finalized, nothing broken; dropping k1 afterwards breaks all."""
+    import itertools
+    out = []
+    names = ["k1", "e1", "k2", "e2", "v"]
+    for vkind in ("node", "fin"):
+        for perm in itertools.permutations(names):
+            for growat in (None, 2, 4):
+                ids = {n: i + 1 for i, n in enumerate(perm)}
+                h = []
+                for pos, n in enumerate(perm):
+                    if growat is not None and pos == growat:
+                        h.append(["Fill", 7 - growat])
+                    if n in ("e1", "e2"):
+                        shape = ["eph", 1, 2]
+                    elif n == "v":
+                        shape = [vkind, 1, 1 if vkind == "node" else 0]
+                    else:
+                        shape = ["node", 1, 1]
+                    reg = {"k1": 1, "e1": 2, "e2": 3, "k2": 4, "v": 5}[n]
+                    h.append(["Alloc", ids[n], shape[0], shape[1], shape[2], "reg", reg])
+                h += [["Set", ids["e1"], 1, ids["k1"]], ["Set", ids["e1"], 2, ids["k2"]],
+                      ["Set", ids["e2"], 1, ids["k2"]], ["Set", ids["e2"], 2, ids["v"]],
+                      ["Reg", 4, 0], ["Reg", 5, 0], ["Collect"], ["Collect"], ["Reg", 1, 0], ["Collect"]]
+                out.append(h)
+    return out
